@@ -116,10 +116,23 @@ def _calls(node, dotted):
 
 
 def find_masters(prog: Program):
+    from .idioms import inline_simple_helpers
     masters = []
     for f in prog.functions():
         if not _calls(f.node, "mpi.submit_call"):
             continue
+        # chunking code factored into private helpers / a chunk generator is
+        # analysed as the statements it stands for
+        if f.cls is not None:
+            def resolve(name, _c=f.cls):
+                h = prog.lookup(_c, name)
+                return h.node if h is not None and name.startswith("_") and \
+                    not name.startswith("_mpi_nsi") and "betweenness" not in name \
+                    else None
+            node = inline_simple_helpers(f.node, resolve)
+            if ast.dump(node) != ast.dump(f.node):
+                f = copy.copy(f)
+                f.node = node
         if f.module.name.endswith("utils.mpi"):
             continue
         ifs = [n for n in ast.walk(f.node) if isinstance(n, ast.If)
